@@ -227,6 +227,9 @@ pub struct Scenario {
     /// C20: offer every public RawNode entry point to a clone in every state
     pub api_probe: bool,
     pub group_commit: bool,
+    /// every read request carries the same context bytes (C08's precondition dropped: only the
+    /// no-panic property is judged on reads there)
+    pub same_read_ctx: bool,
     /// LEASE: these nodes (leader first) run in lock-step (LockTick / LockDeliver only)
     pub lock_majority: Vec<u8>,
     /// MEMBER: also offer one MsgPropose carrying [normal, conf change]
@@ -267,6 +270,7 @@ impl Scenario {
             clone_checks: false,
             api_probe: false,
             group_commit: false,
+            same_read_ctx: false,
             lock_majority: vec![],
             mix_proposals: false,
             down_forever: vec![],
